@@ -67,7 +67,8 @@ def run(p: Program, rep: Report, tier: str) -> None:
         "matched path emits up to match.start() and deletes up to match.end(); R1.4 the helper loops handle every event "
         "class, accumulate field data, flush exactly on the last Data event, stream file data per event and rewind before "
         "appending, identically for sync and async; R1.5 both form accessors pass the Latin-1 encoded boundary, the same "
-        "charset default and their own stream to the helper of their own interface."
+        "charset default and their own stream to the helper of their own interface; R1.6 decoder input discipline: receive_data appends "
+        "every chunk and completes on None alone, the header block is split into lines as bytes, File <=> filename parameter present."
     )
     rep.assume("boundary is treated as one opaque alphabet symbol; RFC 2046 boundary characters are regex-inert after re.escape")
     F = Folder(p)
@@ -360,6 +361,19 @@ def run(p: Program, rep: Report, tier: str) -> None:
     else:
         rep.violation("R1.4", construct("baize.multipart_helper:parse_stream|parse_async_stream", text="sibling mismatch"), "baize/multipart_helper.py", "the sync and async stream helpers differ")
     rep.require_instances("R1.4", 20)
+
+    # ---------------------------------------------------------------- R1.6 decoder input discipline
+    from .mp_common import file_field_decision, header_line_split, receive_data_discipline
+
+    for fnc in (receive_data_discipline, header_line_split, file_field_decision):
+        for kind, fn_, node, cons, msg, facts in fnc(p, rep):
+            if kind == "ok":
+                rep.ok("R1.6", msg)
+            elif kind == "undecided":
+                rep.undecide("R1.6", msg)
+            else:
+                rep.violation("R1.6", construct(fn_, text=cons), where(fn_, node), msg, path_facts=facts)
+    rep.require_instances("R1.6", 5)
 
     # ---------------------------------------------------------------- R1.5 request plumbing
     for side, helper in (("wsgi", "parse_stream"), ("asgi", "parse_async_stream")):
